@@ -454,8 +454,9 @@ def judge_printed(ctx, repos, data, case):
         report = repos.make_report(TEXT)
         text = str(report.ch_text(no_color=True))
         # (the report object is kept and shown again - on the console first, in a mail later: the same text)
-        again = str(report.ch_text(no_color=True)) if len(text) % 2 else str(report)
-        if len(text) % 2 and again != text:
+        str(report) if len(text) % 2 else None
+        again = str(report.ch_text(no_color=True))
+        if again != text:
             ctx.violation("report-printed-again-differs", {"first": text[:200], "second": again[:200]}, case)
             return
     except Exception as err:
